@@ -167,7 +167,13 @@ static void run_C02(const Args &a, long cs) {
 	Rng r(a.seed, "C02", cs);
 	GenOpts g = opts_for("C02", a.tier);
 	bool strict = r.coin(0.5); g.strict_increasing = strict;
-	Spec s = gen_spec(r, g); if (s.flavor.find("zero-width-support") != std::string::npos) count("tables-with-a-zero-width-fully-supported-range");
+	// high spline orders (up to 12) in one or two dimensions: above order 8 the derivative code takes a different route (shared sub-results instead of plain recursion)
+	bool highorder = r.coin(0.07); if (highorder) { g.max_dim = 2; g.max_order = 12; g.known_patterns = false; g.extra_knots_max = 4; strict = true; g.strict_increasing = true; g.mag_exp_max = 2; }
+	Spec s = gen_spec(r, g);
+	if (highorder) { // one dimension of order 9..12, optionally a second one of low order
+		s = Spec(); int hnd = r.range(1, 2), hd = (int)r.below(hnd); size_t tot = 1; for (int d = 0; d < hnd; d++) { unsigned o = d == hd ? (unsigned)r.range(9, 12) : (unsigned)r.below(4); int nk = 2 * o + 2 + (int)r.below(5); s.order.push_back(o); s.knots.push_back(gen_knots(r, o, nk, r.coin(0.3) ? 0 : 1, 1.0, r.U() * 4 - 2, true)); tot *= (size_t)(nk - o - 1); }
+		s.coef.resize(tot); for (auto &c : s.coef) c = (float)(r.U() - 0.4); s.flavor = "irregular/unit/normal/high-order"; }
+	if (highorder) { bool any = false; for (unsigned o : s.order) if (o >= 9) any = true; if (any) count("tables-with-an-order-above-8"); } if (s.flavor.find("zero-width-support") != std::string::npos) count("tables-with-a-zero-width-fully-supported-range");
 	Table T; if (!load(T, s)) { viol("C02:load:well-formed-table-rejected", s.full_json()); return; }
 	auto Ef = T.get_evaluator<float>(); auto Ed = T.get_evaluator<double>();
 	if (!s.extents.empty()) count("tables-with-custom-extents");
@@ -240,11 +246,13 @@ static void run_C02(const Args &a, long cs) {
 			distinct(hash_mix(h, 77));
 		}
 		// ---- arbitrary-order derivatives
-		for (int q = 0; q < 4; q++) {
+		int sweepdim = highorder ? (int)r.below(nd) : -1; int nq = highorder ? (int)s.order[sweepdim] + 6 : 4; // high orders: every derivative order 0..order+1 of one dimension in turn at this point, then random requests
+		for (int q = 0; q < nq; q++) {
 			std::vector<unsigned> ders(nd, 0); bool above = false, high = false;
 			int ndiff = 1 + (int)r.below(std::min(nd, 3));
 			for (int j = 0; j < ndiff; j++) { int d = (int)r.below(nd); unsigned mx = strict ? s.order[d] + 1 : std::min(1u, s.order[d] + 1); ders[d] = (unsigned)r.below(mx + 1); }
-			if (q == 0) { int d = (int)r.below(nd); ders[d] = s.order[d] + 1; if (!strict && ders[d] > 1) ders[d] = s.order[d] == 0 ? 1 : 0; } // force "above order" regularly
+			if (highorder && q >= 1 && q <= (int)s.order[sweepdim] + 2) { std::fill(ders.begin(), ders.end(), 0u); ders[sweepdim] = (unsigned)(q - 1); count("deriv-order-sweeps-at-one-point"); }
+			else if (q == 0) { int d = (int)r.below(nd); ders[d] = s.order[d] + 1; if (!strict && ders[d] > 1) ders[d] = s.order[d] == 0 ? 1 : 0; } // force "above order" regularly
 			for (int d = 0; d < nd; d++) { if (ders[d] > s.order[d]) above = true; if (ders[d] >= 2) high = true; }
 			Exact<unsigned> de(ders);
 			phase("ndsplineeval_deriv"); double lv = T.ndsplineeval_deriv(x.data(), c.data(), de.p);
@@ -285,6 +293,10 @@ static std::vector<std::vector<unsigned>> c03_patterns() {
 	p.push_back({2, 2, 2, 3, 2}); p.push_back({2, 2, 3, 2, 2, 2}); p.push_back({2, 2, 2, 2, 5, 2}); p.push_back({2, 2, 2, 4, 2, 2}); p.push_back({1, 2, 2, 2, 3, 2, 2});
 	return p;
 }
+// tables with non-finite coefficients: a result that is NaN through one path must be NaN through every path (sign and payload of a NaN are not compared:
+// they depend on the order of the operands); any other result stays compared bit for bit
+static bool g_nan_equiv = false;
+static inline bool beq(double a, double b) { return biteq(a, b) || (g_nan_equiv && std::isnan(a) && std::isnan(b)); }
 template <class F> static void c03_compare(const Spec &s, const Table &T, CHandle &C, Rng &r, const std::vector<double> &xv, const char *prec) {
 	int nd = s.ndim();
 	Exact<double> x(xv); Exact<int> c(nd), c2(nd), c3(nd);
@@ -312,31 +324,31 @@ template <class F> static void c03_compare(const Spec &s, const Table &T, CHandl
 	phase("value paths");
 	double v1 = T.template ndsplineeval<F>(x.p, c.p, 0), v2 = E.ndsplineeval(x.p, c.p, 0), v3 = E(x.p, 0);
 	count("comparisons:value");
-	if (!biteq(v1, v2)) bad("value:member-vs-evaluator", v1, v2);
-	if (!biteq(v2, v3)) bad("value:evaluator-ndsplineeval-vs-operator()", v2, v3);
+	if (!beq(v1, v2)) bad("value:member-vs-evaluator", v1, v2);
+	if (!beq(v2, v3)) bad("value:evaluator-ndsplineeval-vs-operator()", v2, v3);
 	if (isf) {
-		double v4 = T(x.p); if (!biteq(v1, v4)) bad("value:member-vs-call-operator", v1, v4);
-		if (C.ok) { double v5 = ::ndsplineeval(&C.h, x.p, c.p, 0); if (!biteq(v1, v5)) bad("value:member-vs-C", v1, v5); }
+		double v4 = T(x.p); if (!beq(v1, v4)) bad("value:member-vs-call-operator", v1, v4);
+		if (C.ok) { double v5 = ::ndsplineeval(&C.h, x.p, c.p, 0); if (!beq(v1, v5)) bad("value:member-vs-C", v1, v5); }
 	}
 	phase("mask derivative paths");
 	for (int q = 0; q < 2; q++) {
 		int mask = q == 0 ? (1 << r.below(nd)) : (int)r.below(1u << nd);
 		double d1 = T.template ndsplineeval<F>(x.p, c.p, mask), d2 = E.ndsplineeval(x.p, c.p, mask), d3 = E(x.p, mask);
 		count("comparisons:mask-derivative");
-		if (!biteq(d1, d2)) bad("mask-derivative:member-vs-evaluator", d1, d2);
-		if (!biteq(d2, d3)) bad("mask-derivative:evaluator-ndsplineeval-vs-operator()", d2, d3);
-		if (isf && C.ok) { double d5 = ::ndsplineeval(&C.h, x.p, c.p, mask); if (!biteq(d1, d5)) bad("mask-derivative:member-vs-C", d1, d5); }
+		if (!beq(d1, d2)) bad("mask-derivative:member-vs-evaluator", d1, d2);
+		if (!beq(d2, d3)) bad("mask-derivative:evaluator-ndsplineeval-vs-operator()", d2, d3);
+		if (isf && C.ok) { double d5 = ::ndsplineeval(&C.h, x.p, c.p, mask); if (!beq(d1, d5)) bad("mask-derivative:member-vs-C", d1, d5); }
 	}
 	if (nd <= 7) {
 		phase("gradient paths");
 		Exact<double> g1(nd + 1), g2(nd + 1), g3(nd + 1);
 		T.template ndsplineeval_gradient<F>(x.p, c.p, g1.p); E.ndsplineeval_gradient(x.p, c.p, g2.p);
 		count("comparisons:gradient");
-		for (int i = 0; i <= nd; i++) if (!biteq(g1.p[i], g2.p[i])) { bad("gradient:member-vs-evaluator:lane" + std::string(i ? "N" : "0"), g1.p[i], g2.p[i]); break; }
-		if (!biteq(g1.p[0], v1)) bad("gradient:value-lane-vs-plain-value", g1.p[0], v1);
-		if (!biteq(g2.p[0], v2)) bad("gradient:evaluator-value-lane-vs-plain-value", g2.p[0], v2);
-		if (isf && C.ok) { ::ndsplineeval_gradient(&C.h, x.p, c.p, g3.p); for (int i = 0; i <= nd; i++) if (!biteq(g1.p[i], g3.p[i])) { bad("gradient:member-vs-C", g1.p[i], g3.p[i]); break; } }
-		for (int i = 0; i < nd; i++) { double di = T.template ndsplineeval<F>(x.p, c.p, 1 << i); if (!biteq(di, g1.p[i + 1])) { note(std::string("gradient-lane-vs-mask-derivative-differs(not a C03 verdict)") + (s.order[i] == 0 ? ":order0" : "")); break; } }
+		for (int i = 0; i <= nd; i++) if (!beq(g1.p[i], g2.p[i])) { bad("gradient:member-vs-evaluator:lane" + std::string(i ? "N" : "0"), g1.p[i], g2.p[i]); break; }
+		if (!beq(g1.p[0], v1)) bad("gradient:value-lane-vs-plain-value", g1.p[0], v1);
+		if (!beq(g2.p[0], v2)) bad("gradient:evaluator-value-lane-vs-plain-value", g2.p[0], v2);
+		if (isf && C.ok) { ::ndsplineeval_gradient(&C.h, x.p, c.p, g3.p); for (int i = 0; i <= nd; i++) if (!beq(g1.p[i], g3.p[i])) { bad("gradient:member-vs-C", g1.p[i], g3.p[i]); break; } }
+		for (int i = 0; i < nd; i++) { double di = T.template ndsplineeval<F>(x.p, c.p, 1 << i); if (!beq(di, g1.p[i + 1])) { note(std::string("gradient-lane-vs-mask-derivative-differs(not a C03 verdict)") + (s.order[i] == 0 ? ":order0" : "")); break; } }
 	}
 	if (isf) {
 		phase("ndsplineeval_deriv paths");
@@ -344,13 +356,13 @@ template <class F> static void c03_compare(const Spec &s, const Table &T, CHandl
 		Exact<unsigned> de(dv);
 		double e1 = T.ndsplineeval_deriv(x.p, c.p, de.p), e2 = E.ndsplineeval_deriv(x.p, c.p, de.p);
 		count("comparisons:ndsplineeval_deriv");
-		if (!biteq(e1, e2)) bad("ndsplineeval_deriv:member-vs-evaluator", e1, e2);
-		if (C.ok) { double e3 = ::ndsplineeval_deriv(&C.h, x.p, c.p, de.p); if (!biteq(e1, e3)) bad("ndsplineeval_deriv:member-vs-C", e1, e3); }
-		double e4 = T.ndsplineeval_deriv(x.p, c.p, nullptr); if (!biteq(e4, v1)) bad("ndsplineeval_deriv(nullptr)-vs-plain-value", e4, v1);
+		if (!beq(e1, e2)) bad("ndsplineeval_deriv:member-vs-evaluator", e1, e2);
+		if (C.ok) { double e3 = ::ndsplineeval_deriv(&C.h, x.p, c.p, de.p); if (!beq(e1, e3)) bad("ndsplineeval_deriv:member-vs-C", e1, e3); }
+		double e4 = T.ndsplineeval_deriv(x.p, c.p, nullptr); if (!beq(e4, v1)) bad("ndsplineeval_deriv(nullptr)-vs-plain-value", e4, v1);
 	}
 	phase("value repeated after the other paths");
 	double v1r = T.template ndsplineeval<F>(x.p, c.p, 0); count("comparisons:value-repeated");
-	if (!biteq(v1r, v1)) bad("value:member-repeated-after-the-other-paths-differs", v1, v1r);
+	if (!beq(v1r, v1)) bad("value:member-repeated-after-the-other-paths-differs", v1, v1r);
 }
 static void run_C03(const Args &a, long cs) {
 	Rng r(a.seed, "C03", cs);
@@ -377,6 +389,8 @@ static void run_C03(const Args &a, long cs) {
 	s.coef.resize(tot); for (auto &c : s.coef) c = (float)(r.U() - 0.5);
 	if (r.coin(0.2)) { float sc = (float)std::pow(10.0, -(double)r.range(33, 42)); for (auto &c : s.coef) c *= sc; count("tables-with-coefficients-near-or-in-the-subnormal-range-of-float"); } // terms and sums subnormal in float: any path that treats them differently (flush-to-zero, another accumulation order) shows
 	s.flavor = std::string(knot_flavor_name(flavor)) + "/" + kind;
+	g_nan_equiv = false;
+	if (r.coin(0.08)) { static const float nf[] = {INFINITY, -INFINITY, NAN}; size_t k = 1 + r.below(std::max<size_t>(1, tot / 8)); for (size_t q = 0; q < k; q++) s.coef[r.below(tot)] = nf[r.below(3)]; g_nan_equiv = true; s.flavor += "/non-finite-coefficients"; count("tables-with-non-finite-coefficients"); }
 	if (r.coin(0.3)) { add_custom_extents(r, s); count("tables-with-custom-extents"); }
 	Table T; if (!load(T, s)) { viol("C03:load:well-formed-table-rejected", s.full_json()); return; }
 	CHandle C(s);
